@@ -3,6 +3,7 @@
 //! event with the bytes it consumed and produced. Scenario families: honest, tamper (every byte
 //! position of every message), raw (invalid encoded inputs with honest proofs), mismatch (context /
 //! nonce / key / aggregator id), count (dropped / duplicated verifier shares), pair (C17).
+use prio::vdaf::Vdaf;
 use crate::circuits::*;
 use crate::recxof::*;
 use crate::util::*;
@@ -95,7 +96,16 @@ fn flush(out: &mut Vec<Value>) {
 /// Runs verification of one report from its wire bytes; logs every step. Returns output shares if
 /// every aggregator finished.
 fn verify_report<T: Type>(vdaf: &V<T>, views: &[View], pubb: &[u8], shares: &[Vec<u8>], tamper: Tamper, out: &mut Vec<Value>) -> Option<Vec<Vec<u8>>> {
+    verify_report_alt(vdaf, None, views, pubb, shares, tamper, out)
+}
+
+/// `alt = Some((instance, who))`: aggregator `who` (every aggregator if `who == n`) runs a different Prio3 instance
+/// (same circuit, other algorithm identifier); its events carry that identifier.
+fn verify_report_alt<T: Type>(vdaf0: &V<T>, alt: Option<(&V<T>, usize)>, views: &[View], pubb: &[u8], shares: &[Vec<u8>], tamper: Tamper, out: &mut Vec<Value>) -> Option<Vec<Vec<u8>>> {
     let n = views.len();
+    let inst = |k: usize| -> &V<T> { match alt { Some((a, who)) if who == k || who == n => a, _ => vdaf0 } };
+    let tag = |k: usize, mut e: Value| -> Value { if let Some((a, who)) = alt { if who == k || who == n { e["algo"] = json!(a.algorithm_id()); } } e };
+    let vdaf = vdaf0;
     let mut states: Vec<Vec<u8>> = Vec::new();
     let mut vshares: Vec<Vec<u8>> = Vec::new();
     let mut all = true;
@@ -116,19 +126,19 @@ fn verify_report<T: Type>(vdaf: &V<T>, views: &[View], pubb: &[u8], shares: &[Ve
                 continue;
             }
         };
-        let r = guarded(|| vdaf.verify_init(&v.key, &v.ctx, v.id, &(), &v.nonce, &public, &share));
+        let r = guarded(|| inst(k).verify_init(&v.key, &v.ctx, v.id, &(), &v.nonce, &public, &share));
         flush(out);
         match r {
             Ok(Ok((st, vs))) => {
                 let (stb, vsb) = (st.get_encoded().unwrap(), vs.get_encoded().unwrap());
-                out.push(json!({"ev":"vinit","key":v.key.to_vec(),"ctx":v.ctx,"j":v.id,"dj":v.dec_id,"nonce":v.nonce.to_vec(),"pub":pubb,"share":shares[k],
-                                "ok":true,"vshare":vsb,"state":stb,"vs_len":vs.encoded_len(),"st_len":st.encoded_len()}));
+                out.push(tag(k, json!({"ev":"vinit","key":v.key.to_vec(),"ctx":v.ctx,"j":v.id,"dj":v.dec_id,"nonce":v.nonce.to_vec(),"pub":pubb,"share":shares[k],
+                                "ok":true,"vshare":vsb,"state":stb,"vs_len":vs.encoded_len(),"st_len":st.encoded_len()})));
                 states.push(stb);
                 vshares.push(vsb);
             }
             Ok(Err(_)) => {
-                out.push(json!({"ev":"vinit","key":v.key.to_vec(),"ctx":v.ctx,"j":v.id,"dj":v.dec_id,"nonce":v.nonce.to_vec(),"pub":pubb,"share":shares[k],
-                                "ok":false,"vshare":[],"state":[]}));
+                out.push(tag(k, json!({"ev":"vinit","key":v.key.to_vec(),"ctx":v.ctx,"j":v.id,"dj":v.dec_id,"nonce":v.nonce.to_vec(),"pub":pubb,"share":shares[k],
+                                "ok":false,"vshare":[],"state":[]})));
                 all = false;
             }
             Err(p) => {
@@ -162,16 +172,16 @@ fn verify_report<T: Type>(vdaf: &V<T>, views: &[View], pubb: &[u8], shares: &[Ve
             }
         }
     }
-    let r = guarded(|| vdaf.verifier_shares_to_message(&views[0].ctx, &(), decoded));
+    let r = guarded(|| inst(0).verifier_shares_to_message(&views[0].ctx, &(), decoded));
     flush(out);
     let msg = match r {
         Ok(Ok(m)) => {
             let mb = m.get_encoded().unwrap();
-            out.push(json!({"ev":"s2m","ctx":views[0].ctx,"vshares":wire,"ok":true,"msg":mb,"msg_len":m.encoded_len()}));
+            out.push(tag(0, json!({"ev":"s2m","ctx":views[0].ctx,"vshares":wire,"ok":true,"msg":mb,"msg_len":m.encoded_len()})));
             mb
         }
         Ok(Err(_)) => {
-            out.push(json!({"ev":"s2m","ctx":views[0].ctx,"vshares":wire,"ok":false,"msg":[]}));
+            out.push(tag(0, json!({"ev":"s2m","ctx":views[0].ctx,"vshares":wire,"ok":false,"msg":[]})));
             return None;
         }
         Err(p) => {
@@ -202,12 +212,12 @@ fn verify_report<T: Type>(vdaf: &V<T>, views: &[View], pubb: &[u8], shares: &[Ve
                 continue;
             }
         };
-        let r = guarded(|| vdaf.verify_next(&v.ctx, st, m));
+        let r = guarded(|| inst(k).verify_next(&v.ctx, st, m));
         flush(out);
         match r {
             Ok(Ok(VerifyTransition::Finish(o))) => {
                 let ob = o.get_encoded().unwrap();
-                out.push(json!({"ev":"vnext","ctx":v.ctx,"j":v.id,"state":states[k],"msg":mb,"ok":true,"out":ob,"out_len":o.encoded_len()}));
+                out.push(tag(k, json!({"ev":"vnext","ctx":v.ctx,"j":v.id,"state":states[k],"msg":mb,"ok":true,"out":ob,"out_len":o.encoded_len()})));
                 outs.push(ob);
             }
             Ok(Ok(_)) => {
@@ -215,7 +225,7 @@ fn verify_report<T: Type>(vdaf: &V<T>, views: &[View], pubb: &[u8], shares: &[Ve
                 all = false;
             }
             Ok(Err(_)) => {
-                out.push(json!({"ev":"vnext","ctx":v.ctx,"j":v.id,"state":states[k],"msg":mb,"ok":false,"out":[]}));
+                out.push(tag(k, json!({"ev":"vnext","ctx":v.ctx,"j":v.id,"state":states[k],"msg":mb,"ok":false,"out":[]})));
                 all = false;
             }
             Err(p) => {
@@ -293,8 +303,8 @@ impl<T: Type> TypJr for V<T> {
 fn unit<F: TinyField, T: Type<Field = F> + FromSpec>(t: &T, p: u64, c: &Value, m: &Value, family: &str, g: &mut Gen, out: &mut Vec<Value>, idx: u64) {
     JR_LEN.with(|x| x.set(t.joint_rand_len()));
     let nagg: u8 = match family { "honest" => [2, 3, 4, 2, 5][(idx % 5) as usize], "wide" => [128, 254, 17, 129][(idx % 4) as usize], _ => [2, 3][(idx % 2) as usize] };
-    let np: u8 = if family == "wide" { 1 } else { [1, 1, 2, 1, 3][((idx / 2) % 5) as usize] };
-    let family = if family == "wide" { "honest" } else { family };
+    let np: u8 = if family == "wide" { 1 } else if family == "proofs" { [4, 255, 17, 128][(idx % 4) as usize] } else { [1, 1, 2, 1, 3][((idx / 2) % 5) as usize] };
+    let family = if family == "wide" || family == "proofs" { "honest" } else { family };
     let vdaf: V<T> = Prio3::new(nagg, np, ALGO, t.clone()).unwrap();
     let n = nagg as usize;
     match family {
@@ -371,6 +381,21 @@ fn unit<F: TinyField, T: Type<Field = F> + FromSpec>(t: &T, p: u64, c: &Value, m
                 verify_report(&vdaf, &views, &pb, &sb, Tamper::Drop(a), out);
                 verify_report(&vdaf, &views, &pb, &sb, Tamper::Dup(a), out);
             }
+            // multiple alterations: two messages altered at once (share + share, share + public share, share + verifier share)
+            for k in 0..6usize {
+                let mut pb2 = pb.clone();
+                let mut sb2 = sb.clone();
+                let (a, b) = (k % n, (k + 1) % n);
+                let ia = (idx as usize * 7 + k * 13) % sb2[a].len();
+                sb2[a][ia] ^= x;
+                let mut t = Tamper::None;
+                match k % 3 {
+                    0 => { let ib = (idx as usize * 5 + k * 11) % sb2[b].len(); sb2[b][ib] ^= x.rotate_left(1); }
+                    1 => { if !pb2.is_empty() { let i = (idx as usize + k * 3) % pb2.len(); pb2[i] ^= x; } else { let ib = (k * 17) % sb2[b].len(); sb2[b][ib] ^= 0x80; } }
+                    _ => { t = Tamper::VShare(b, k * 5, x); }
+                }
+                verify_report(&vdaf, &views, &pb2, &sb2, t, out);
+            }
         }
         "mismatch" => {
             let views = g.views(n);
@@ -416,6 +441,11 @@ fn unit<F: TinyField, T: Type<Field = F> + FromSpec>(t: &T, p: u64, c: &Value, m
                     vs[who].id = other;
                     verify_report(&vdaf, &vs, &pb, &sb, Tamper::None, out);
                 }
+            }
+            // algorithm identifier mismatch: one aggregator / every aggregator runs an instance with another identifier
+            let other: V<T> = Prio3::new(nagg, np, ALGO + 1, t.clone()).unwrap();
+            for who in 0..=n {
+                verify_report_alt(&vdaf, Some((&other, who)), &views, &pb, &sb, Tamper::None, out);
             }
             // out-of-range aggregator id
             let mut vs = views.clone();
